@@ -168,12 +168,12 @@ func (t *Tree) Extend(parent *Block, o MineOpts) *Block {
 		ts = parent.Hdr.Timestamp.Add(10 * time.Minute)
 	}
 	mtp := MedianTimePast(chain)
+	ts = time.Unix(ts.Unix(), 0) // header timestamps have one-second resolution
 	if o.Break == "median-time" {
 		ts = mtp
 	} else if !ts.After(mtp) {
 		ts = mtp.Add(time.Second)
 	}
-	ts = time.Unix(ts.Unix(), 0)
 
 	height := parent.Height + 1
 	t.salt++
